@@ -579,6 +579,22 @@ func (en *evalEnv) call(x *ECall) ev {
 		}
 		return ev{e.mapHas(en.st, a.v.(*Term), mt, en.keyTerm(x.Args[1], mt.Key())), nil}
 	}
+	if e.Opt.Contracts != nil && len(x.Args) == 1 {
+		for pm := range e.Opt.Contracts.PureMethods {
+			if i := strings.Index(pm, "."); i >= 0 && pm[i+1:] == x.Fun {
+				a := arg(0)
+				rs := SInt
+				if m := en.pureMethodSort(pm[:i], x.Fun); m != "" {
+					rs = m
+				}
+				at, ok := a.v.(*Term)
+				if !ok || at.Sort != SObj {
+					en.fail("%s(x): x must be an interface value", x.Fun)
+				}
+				return ev{e.pureMethod(x.Fun, rs, at), nil}
+			}
+		}
+	}
 	if g, ok := en.e.ghostFuncs[x.Fun]; ok {
 		var as []ev
 		for i := range x.Args {
@@ -657,6 +673,7 @@ func (e *Exec) atReturn(fr *Frame, st *State, res []Value, c *Contract) {
 	}
 	for i, cl := range c.Ensures {
 		en := e.newEnv(fr, st, e.entry)
+		en.point = e.curIn // names that are not parameters resolve to the value in use at this return
 		e.bindResults(en, fr.fn, res)
 		g := e.evalClause(en, cl)
 		e.oblige(st, "post", clauseName(cl, i), g, "")
@@ -783,4 +800,23 @@ func (e *Exec) resultIndependence(fr *Frame, st *State, res []Value) {
 	}
 	e.retN++
 	e.oblige(st, "frame:result", fmt.Sprintf("independent-ret%d", e.retN), Implies(Eq(App(SInt, "o-tag", r), listTag), okT), "", id, App(SInt, "sl-len", sl))
+}
+
+// pureMethodSort finds the result sort of interface method iface.method in the loaded packages.
+func (en *evalEnv) pureMethodSort(iface, method string) string {
+	for _, sp := range en.e.P.SPkgs {
+		if o := sp.Pkg.Scope().Lookup(iface); o != nil {
+			if it, ok := o.Type().Underlying().(*types.Interface); ok {
+				for i := 0; i < it.NumMethods(); i++ {
+					if it.Method(i).Name() == method {
+						sig := it.Method(i).Type().(*types.Signature)
+						if sig.Results().Len() == 1 {
+							return sortOf(sig.Results().At(0).Type())
+						}
+					}
+				}
+			}
+		}
+	}
+	return ""
 }
